@@ -78,6 +78,7 @@ def gen_record(rng):
     maybe("pat", lambda: rng.choice(REGEXES), 0.35)
     maybe("fmt", lambda: rng.choice(FORMATS + ["%Y-%Q", "%H:%M:%", "%F %T %!"]), 0.35)
     maybe("which", lambda: rng.choice(VARNAMES), 0.35)
+    maybe("sel", lambda: rng.choice([".n", "(+ .i 1)", ".s", "(size .arr)", ".obj.a", "(concat .s \"!\")", ".", "(first .strs)", "(* .n 2)"]), 0.35)
     return r
 
 
@@ -511,6 +512,9 @@ class Gen:
     def mk_parse_selection(self, kind, sc, d):
         sub = Gen(self.rng, self.ill, 1, self.funcs, self.nonascii, self.big_n, allow_parse_selection=False)
         inner = sub.gen(kind, sc, 0)
+        if sc.dot == "rec" and self.rng.random() < 0.3:
+            # the text to parse comes from the record (another one for every record), with the literal as fallback
+            return ("call", "parse_selection", (("call", "default", (("path", 0, (("k", "sel"),)), ("lit", show(inner)))),))
         return ("call", "parse_selection", (("lit", show(inner)),))
 
 
